@@ -305,7 +305,8 @@ func goSendProp(a []string) string {
 	}
 	n := atoi(a[10])
 	if a[8] == "1" || n > maxMsgs(ver) {
-		if r.tag != "err" || len(r.chain.sent) != 0 {
+		// refused (v1/v2 and a hand-built invalid account value panic earlier, in NextMessageParams)
+		if r.tag == "ok" || len(r.chain.sent) != 0 {
 			return "FAIL refused-send-reached-the-chain tag=" + r.tag
 		}
 		return "ok"
